@@ -25,7 +25,22 @@ impl TabCfg {
 /// Expand tabs as spaces.
 pub fn expand(line: &str, tab_cfg: &TabCfg) -> String {
     if tab_cfg.replace() && line.as_bytes().iter().any(|c| *c == b'\t') {
-        itertools::join(line.split('\t'), &tab_cfg.replacement)
+        if line.as_bytes().contains(&b'\x1b') {
+            // A tab inside an escape sequence is not text: with blanks in its place the
+            // sequence would be another one, or none at all, and the line would no longer
+            // have the text that the same line has with its escape sequences removed.
+            crate::ansi::ansi_strings_iterator(line)
+                .map(|(s, is_ansi)| {
+                    if is_ansi {
+                        s.to_string()
+                    } else {
+                        itertools::join(s.split('\t'), &tab_cfg.replacement)
+                    }
+                })
+                .collect()
+        } else {
+            itertools::join(line.split('\t'), &tab_cfg.replacement)
+        }
     } else {
         line.to_string()
     }
